@@ -108,6 +108,7 @@ func genC07(d *Draw) Case {
 	opts.StartFork = d.Bool()
 	opts.ActivityDefault = d.Bool()
 	opts.EmptyBranches = d.Bool()
+	opts.Fuse = d.Bool()
 	prog := GenProgram(d, opts)
 	c := &ProcCase{Prog: prog, Buf: d.N(17), Hold: d.N(3), Shutdown: true}
 	// cancellation point = number of traces observed before the cancel
